@@ -21,6 +21,8 @@ inductive Pre where
   | smry (key : String) (neg : Bool)          -- [-] smry.get_well_var(well, key, 0) / get_conn_var
   | smryPI (keyP keyI : String)               -- producer: +keyP, injector: -keyI
   | cond (inner : Pre) (dflt : String) (thenBranch : Bool)   -- c ? inner(x) : dflt   (or swapped)
+  | fromSIChain (ms : List String)            -- from_si(M::m1, from_si(M::m2, … x))   (nested conversions, e.g. [D]·[viscosity])
+  | fromSIUnitPow (m : String) (k : Nat)      -- from_si(M::m, … from_si(M::m, 1.)) * x   (k-fold: area / volume from the length unit)
   | opaque (text : String)                    -- not recognised: excluded from the proved set
   deriving DecidableEq, Repr, Inhabited
 
@@ -37,6 +39,7 @@ inductive Post where
   | sentinelId                                -- keep_sentinel(y, id)
   | decode (fn : String)                      -- from_int<T>(y) / from_float(y)   (table in `decTables`/`decEq`)
   | smryKey (key : String)                    -- smry.update_well_var(well, key, y)
+  | toSIChain (ms : List String) (nar : Bool) -- [as_float] to_si(M::m1, to_si(M::m2, … y))
   | opaque (text : String)
   deriving DecidableEq, Repr, Inhabited
 
@@ -82,7 +85,8 @@ def Pre.core : Pre → Pre
 opaque text)? -/
 def Pre.carriesSource (p : Pre) : Bool :=
   match p.core with
-  | .id | .plus1 | .castInt | .fromSI _ | .fromSIScaled _ _ | .sel _ _ | .enumEnc _ | .smry _ _ | .smryPI _ _ => true
+  | .id | .plus1 | .castInt | .fromSI _ | .fromSIScaled _ _ | .sel _ _ | .enumEnc _ | .smry _ _ | .smryPI _ _
+  | .fromSIChain _ | .fromSIUnitPow _ _ => true
   | _ => false
 
 /-! ## Measures of the summary vectors the writer copies into XWEL / XCON
@@ -133,6 +137,7 @@ def Pre.smryKeys : Pre → List String
 inductive Cls where
   | exact        -- decode (encode x) = x   (REAL arrays: up to the single-precision narrowing)
   | scaled       -- decode (encode x) = k * x  with the factor the writer applied (Diameter = 2·rw)
+  | exactScale   -- nested / k-fold conversions of offset-free measures: decode (encode x) = x when every offset is 0
   | flag         -- Boolean stored as two distinct integers, reader keeps the integer
   | table        -- enum stored through an encoder, read through a decoder table (proved on the tables)
   | rawUnits     -- reader keeps the value in output units on purpose (converted later through UDA)
@@ -176,6 +181,9 @@ def classifyR (pre : Pre) (post : Post) : Cls :=
   | .smryPI kp ki, .toSI m => if smryMeasure kp = some m ∧ smryMeasure ki = some m then .signedSmry else .mismatch
   | .smryPI kp ki, .negToSI m => if smryMeasure kp = some m ∧ smryMeasure ki = some m then .signedSmry else .mismatch
   | .smry k neg, .smryKey k' => if k = k' ∧ neg = false then .smryKey else .mismatch
+  | .fromSIChain a, .toSIChain b _ => if a = b then .exactScale else .mismatch
+  | .fromSIUnitPow m k, .toSIChain b _ => if b = List.replicate k m then .exactScale else .mismatch
+  | .fromSIUnitPow m k, .toSI m' => if k = 1 ∧ m = m' then .exactScale else .mismatch
   | _, _ => .mismatch
 
 /-- The pairing relation decided on the generated tables.  `ty` is the element type of the array. -/
@@ -247,6 +255,15 @@ def fromSI {F : Type} (o : Ops F) (u : UnitSys F) (m : String) (x : F) : F :=
 def toSI {F : Type} (o : Ops F) (u : UnitSys F) (m : String) (y : F) : F :=
   o.add (o.mul (u.fto m) y) (u.off m)
 
+/-- Nested conversions `from_si(m1, from_si(m2, … x))` / `to_si(m1, to_si(m2, … y))`. -/
+def fromSIChain {F : Type} (o : Ops F) (u : UnitSys F) : List String → F → F
+  | [], x => x
+  | m :: ms, x => fromSI o u m (fromSIChain o u ms x)
+
+def toSIChain {F : Type} (o : Ops F) (u : UnitSys F) : List String → F → F
+  | [], y => y
+  | m :: ms, y => toSI o u m (toSIChain o u ms y)
+
 /-- Integer arrays: value stored for source value `x` (Booleans as 0/1, enums as the encoder's value). -/
 def encI : Pre → Int → Option Int
   | .id, x => some x
@@ -272,6 +289,8 @@ def encR {F : Type} (o : Ops F) (u : UnitSys F) (nar : F → F) : Pre → F → 
   | .sel a b, x => some (nar (o.ofInt (if o.isSentinel x then a else b)))   -- not used for reals by the proofs
   | .smry _ neg, x => some (nar (if neg then o.neg x else x))
   | .cond p _ _, x => encR o u nar p x
+  | .fromSIChain ms, x => some (nar (fromSIChain o u ms x))
+  | .fromSIUnitPow m k, x => some (nar (o.mul (fromSIChain o u (List.replicate k m) (o.ofInt 1)) x))
   | _, _ => none
 
 def decR {F : Type} (o : Ops F) (u : UnitSys F) : Post → F → Option F
@@ -282,6 +301,7 @@ def decR {F : Type} (o : Ops F) (u : UnitSys F) : Post → F → Option F
   | .swelValueToSI m, y => some (toSI o u m (if o.isSentinel y then o.ofInt 0 else y))
   | .sentinelToSI m, y => some (if o.isSentinel y then y else toSI o u m y)
   | .sentinelId, y => some y
+  | .toSIChain ms n, y => some (if n then o.narrow (toSIChain o u ms y) else toSIChain o u ms y)
   | _, _ => none
 
 /-- The value the C++ member holds: `float` members narrow the decoded double. -/
